@@ -147,6 +147,7 @@ static int replay_file(const std::string &path, bool quiet) {
         printf("replay %s: %zu ops, %d ranks\n  program: %s\n", path.c_str(), p.ops.size(), p.cfg.sim.nprocs, program_to_text(p, 60).c_str());
         for (auto &v : r.violations) printf("  violation %s: %s\n", v.kind.c_str(), v.detail.c_str());
         if (getenv("VERIF_TRACE")) fputs(r.trace.c_str(), stdout);
+        if (getenv("VERIF_DEBUG")) for (size_t i = 0; i < p.ops.size(); i++) { const Op &op = p.ops[i]; printf("  #%zu %s%s exp_rc=%d", i, op.skip ? "[skip] " : "", op_to_string(op).c_str(), op.exp_rc); for (size_t r = 0; r < op.acc.size(); r++) { printf(" | r%zu rc=%d vals=", r, op.acc[r].exp_rc); for (size_t k = 0; k < op.acc[r].values.size() && k < 6; k++) printf("%lld/%d ", op.acc[r].values[k], k < op.acc[r].estate.size() ? op.acc[r].estate[k] : -1); } printf("\n"); }
     }
     if (!sig.empty() && sig == want) { printf("VIOLATION property=%s replay=%s\n", prop.c_str(), path.c_str()); printf("REPLAY-HASH %016llx\n", (unsigned long long)r.st.ev_hash); return 1; }
     if (!sig.empty()) { printf("REPLAY-DIFFERENT property=%s got=%s want=%s\n", prop.c_str(), sig.c_str(), want.c_str()); return 3; }
